@@ -11,7 +11,9 @@ move with the same random numbers (decisions taken with the reference sampler's 
 The same histories run three ways (case `env`): compiled with NUMBA_BOUNDSCHECK=1 (out-of-bounds
 index raises IndexError instead of touching foreign memory), compiled without it, and with
 NUMBA_DISABLE_JIT=1 (the same source interpreted).  Small supercells additionally get a
-bounded-exhaustive history: every occupation x every swap.
+bounded-exhaustive history: every occupation x every swap.  Two (thorough: a sixth) of the workloads of
+every case are thin supercells (period <= cluster range: interactions that list one supercell site
+twice, periodic image of the fixed vacancy inside the vacancy clusters).
 """
 import numpy as np
 from vmon import gen
@@ -19,8 +21,13 @@ from vmon.util import Mon
 from vmon.ref import sampler_ref as sr
 
 ID = 'C35'
-RULE = ('per case 12 (thorough: 150) sampler workloads from the sampler menu (small, medium and large supercells; vacancy or not; jump network + '
-        'TS clusters or not; spectators) x random values; each gets a random history of 120 events (start / trial / swap / '
+RULE = ('per case 14 (thorough: 150) sampler workloads from the sampler menu (small, medium and large supercells; vacancy or not; jump network + '
+        'TS clusters or not; spectators) x random values; workloads 1 and 2 of every case (thorough: also every 6th) come from the THIN menu '
+        'of vmon.ref.sampler_ref - supercells whose period is not longer than the cluster range (fcc nn clusters in 1x2x3 / 1x1x4 / 2x2x1 / '
+        '1x3x3 / 1x4x5 / non-diagonal, fcc 2x2x2 and 3x3x2 with pairs to the 4th neighbour, hcp 1x1x1 / 1x1x2 / 2x1x2, B2 with spectators '
+        'and all-mobile B2 1x2x2 / 2x1x3 / 2x2x2 with cut-off 2.01, sc, bcc, diamond, rocksalt, L12, chains, planes, triangular, '
+        'honeycomb) so that an interaction lists the same supercell site twice and the image of a fixed vacancy lies inside the vacancy '
+        'clusters; workload 1 is drawn from the thin entries with <= 6 sites and always gets the bounded-exhaustive history; each gets a random history of 120 events (start / trial / swap / '
         'transitions / copy / MCmoves batches of 1..40 moves with kT in {0.05,1,20} incl. kT*log(u)=0 entries) and small cells '
         '(<= 6 mobile sites) a bounded-exhaustive history (every occupation x every swap and back); identical case lists for the '
         'three numba modes; non-trivial = history with accepted and rejected moves / allowed and forbidden transitions; '
@@ -32,7 +39,10 @@ ASSUMPTIONS = ['energies / barriers compared with tolerance 1e-9 x sum of |inter
                'a Metropolis decision whose reference dE is within 1e-9 x scale of kT*log(u) is not compared (counted as tie)',
                'the order of sites inside occupied_set/unoccupied_set is implementation defined: the move-by-move reference reads the '
                'trial sites from a copy of the compiled sampler that is advanced one move at a time; the batch must then reproduce '
-               'that copy bit for bit']
+               'that copy bit for bit',
+               'self-wrapping (thin) supercells are in scope; the oracle there is the same differential one (compiled vs reference vs '
+               'freshly started reference), which needs no model of what a self-wrapping cluster means; the thin-regime counters come '
+               'from a geometry-only census (vmon.ref.sampler_ref.placement_stats), not from the lists of the samplers under test']
 MODES = {'boundscheck': {'NUMBA_BOUNDSCHECK': '1'}, 'compiled': {'NUMBA_BOUNDSCHECK': '0'}, 'interpreted': {'NUMBA_DISABLE_JIT': '1'}}
 REQUIRED_OBS = {'histories:boundscheck': 10, 'histories:compiled': 10, 'histories:interpreted': 10, 'boundscheck_probe_raised': 1,
                 'eval:C35:E': 3000, 'eval:C35:deltaE_trial': 1000, 'eval:C35:transitions': 1000, 'eval:C35:forbidden=inf': 1000,
@@ -40,7 +50,10 @@ REQUIRED_OBS = {'histories:boundscheck': 10, 'histories:compiled': 10, 'historie
                 'eval:C35:metropolis-step': 1000, 'eval:C35:batch=stepwise': 60, 'eval:C35:copy-independent': 60,
                 'eval:C35:trial-is-pure': 1000, 'eval:C35:E=fresh-reference': 300, 'moves:accepted': 200, 'moves:rejected': 200, 'transitions:forbidden': 1000,
                 'transitions:allowed': 1000, 'jit_from:unstarted': 6, 'jit_from:started': 6, 'variant:vac+jumps': 3, 'variant:vac': 3,
-                'variant:jumps': 3, 'variant:plain': 3, 'exhaustive_histories': 3, 'events:start': 100, 'events:swap': 1000}
+                'variant:jumps': 3, 'variant:plain': 3, 'exhaustive_histories': 3, 'events:start': 100, 'events:swap': 1000,
+                # thin (self-wrapping) regime
+                'thin_supercells': 12, 'thin:exhaustive_histories': 3, 'thin:vac': 3, 'thin:jumps': 3, 'self_wrapping_instances': 300,
+                'vacancy_image_in_range': 30, 'events:trial-double-site': 1000, 'thin:mcmoves': 60}
 CASE_TIMEOUT = 600
 CHUNK = 1  # one case per worker process: the compilation cost is paid once per case, the case holds many histories
 
@@ -48,6 +61,8 @@ POOL = [('small', c) for c in sr.menu('small')] + [('medium', c) for c in sr.men
        [('large', (n, k)) for n, k in [('fcc', 0), ('fcc', 1), ('bcc', 0), ('bcc', 3), ('sc', 0), ('sc', 1), ('hcp', 1), ('diamond', 0),
                                        ('b2', 0), ('b2', 1), ('rocksalt', 0), ('l12', 0), ('tet', 0), ('tet', 1), ('plane', 0), ('plane', 1),
                                        ('tri', 0), ('honey', 0), ('honey', 1), ('chain2', 0), ('b2mob', 0), ('diamond', 1)]]
+THIN = sr.menu('thin')
+THIN6 = [c for c in THIN if 2 <= sr.menu_nsites('thin', *c) <= 6]
 VARIANTS = ('plain', 'jumps', 'vac', 'vac+jumps')
 # <= 6 mobile sites: bounded-exhaustive histories
 SMALL6 = [('chain', 1), ('chain', 2), ('chain', 3), ('chain', 6), ('chain', 7), ('chain', 10), ('chain2', 0), ('chain2', 1), ('chain2', 3),
@@ -62,7 +77,7 @@ def cases(tier, seed):
         for mode in ('boundscheck', 'compiled', 'interpreted'):
             for i in range(ncase):
                 out.append({'seed': seed, 'idx': i + 100 * hseeds.index(hs), 'hashseed': hs, 'mode': mode, 'env': MODES[mode],
-                            'nwork': 12 if tier == 'quick' else 150, 'length': 120 if tier == 'quick' else 200})
+                            'nwork': 14 if tier == 'quick' else 150, 'length': 120 if tier == 'quick' else 200})
     return out
 
 
@@ -77,6 +92,8 @@ class Pair:
         self.N = len(P.Ninteract)
         self.vac = P.vacancy if P.vacancy >= 0 else None
         self.transitions_raised = False
+        self.double = set()  # sites that occur twice in one cluster placement (thin supercells)
+        self.thin = False
 
     def compare(self, what, J=None):
         mon, P = self.mon, self.P
@@ -164,6 +181,7 @@ class Pair:
         mon, P, J = self.mon, self.P, self.J
         info = lambda: '%s %s occupy %d vacate %d occ=%s' % (self.desc, what, i, j, np.asarray(P.occ).tolist())
         ref = P.deltaE_trial((i,), (j,))
+        if i in self.double or j in self.double: mon.count('events:trial-double-site')
         with mon.guard('C35:deltaE_trial'):
             before = (np.array(J.occ), np.array(J.clustercount), np.array(J.occupied_set), np.array(J.unoccupied_set), np.array(J.index),
                       int(J.Nocc), int(J.Nunocc))
@@ -239,6 +257,7 @@ class Pair:
             mon.check(np.array_equal(np.array(J.occ), occ0), 'C35:copy-independent', info)
         self.J = A
         mon.count('events:mcmoves')
+        mon.count('thin:mcmoves', self.thin)
         self.compare(what)
 
 
@@ -250,7 +269,7 @@ def make_jit(mon, P):
     return J
 
 
-def one_workload(mon, rng, which, cfg, variant, length, mode):
+def one_workload(mon, rng, which, cfg, variant, length, mode, force_exhaustive=False):
     name, k = cfg
     S = sr.Setup(which, name, k, rng, const=bool(rng.uniform() < 0.8), kra=str(rng.choice(['vector', 'scalar', 'zero'])),
                  zero_fraction=float(rng.choice([0., 0., 0.3])))
@@ -264,6 +283,19 @@ def one_workload(mon, rng, which, cfg, variant, length, mode):
     mon.count('variant:' + variant)
     mon.seen('crystals', name)
     mon.note_max('Nsites', S.Nsites)
+    double = set()
+    if which == 'thin':
+        st = sr.placement_stats(S.supercell(vac), S.clusters_values(vac)[0])
+        double = st['double_sites']
+        mon.count('thin_supercells')
+        mon.count('thin:vac', vac is not None)
+        mon.count('thin:jumps', jumps)
+        mon.count('self_wrapping_instances', st['self_wrapping'])
+        mon.count('vacancy_image_in_range', st['vacancy_image'])
+        mon.count('thin:cells-with-self-wrapping', st['self_wrapping'] > 0)
+        mon.count('thin:cells-with-vacancy-image', st['vacancy_image'] > 0)
+        mon.seen('thin:cells', '%s %s' % (name, S.superlatt.tolist()))
+        desc = str(dict(S.describe(), variant=variant, vacancy=vac, numba=mode, thin={k: v for k, v in st.items() if k != 'double_sites'}))
     # (a) compiled sampler from the un-started reference: must be the all-occupied state
     J = make_jit(mon, P)
     if J is None: return desc
@@ -271,6 +303,7 @@ def one_workload(mon, rng, which, cfg, variant, length, mode):
     if vac is not None: full[vac] = -1
     P.start(full.copy())
     pair = Pair(mon, P, J, desc, F)
+    pair.double, pair.thin = double, which == 'thin'
     pair.compare('construction from the un-started sampler (all occupied)')
     mon.count('jit_from:unstarted')
     if rng.uniform() < 0.5:
@@ -280,6 +313,7 @@ def one_workload(mon, rng, which, cfg, variant, length, mode):
         J2 = make_jit(mon, P)
         if J2 is not None:
             pair = Pair(mon, P, J2, desc, F)
+            pair.double, pair.thin = double, which == 'thin'
             pair.compare('construction from the started sampler')
             mon.count('jit_from:started')
             # the un-started one must not share state with it
@@ -288,8 +322,9 @@ def one_workload(mon, rng, which, cfg, variant, length, mode):
     else:
         pair.start(S.rand_occ(rng, vac), 'first start')
     mon.count('histories:' + mode)
-    if S.Nsites <= 6 and rng.uniform() < 0.7:
+    if S.Nsites <= 6 and (force_exhaustive or rng.uniform() < 0.7):
         mon.count('exhaustive_histories')
+        mon.count('thin:exhaustive_histories', which == 'thin')
         for occ in S.all_occ(vac):
             if len(mon.viol) >= 25: break
             pair.start(occ, 'exhaustive start')
@@ -356,9 +391,13 @@ def run_case(case):
     for w in range(case['nwork']):
         if w == 0:
             which, cfg = 'small', SMALL6[int(rng.integers(len(SMALL6)))]
+        elif w == 1:
+            which, cfg = 'thin', THIN6[int(rng.integers(len(THIN6)))]
+        elif w == 2 or (case['nwork'] > 20 and w % 6 == 5):
+            which, cfg = 'thin', THIN[int(rng.integers(len(THIN)))]
         else:
             which, cfg = POOL[int(rng.integers(len(POOL)))]
         variant = VARIANTS[(w + case['idx']) % 4]
-        desc = one_workload(mon, rng, which, tuple(cfg), variant, case['length'], mode)
+        desc = one_workload(mon, rng, which, tuple(cfg), variant, case['length'], mode, force_exhaustive=(w == 1))
         if sample is None: sample = desc
     return mon.result(sample=sample)
